@@ -123,6 +123,29 @@ func (b *book) closeSelection(disabled map[int]bool) (reenabled int) {
 	return
 }
 
+// closeDown disables every row that depends on a disabled row (the other way
+// to obtain a legal selection: the chosen rows stay disabled).
+func (b *book) closeDown(disabled map[int]bool) {
+	for changed := true; changed; {
+		changed = false
+		for _, r := range b.rows {
+			if !r.Enabled || disabled[r.Line] {
+				continue
+			}
+			if r.Sub && (disabled[r.Parent.Line] || !r.Parent.Enabled) {
+				continue
+			}
+			for _, d := range b.deps(r) {
+				if disabled[d.Line] || !d.Enabled {
+					disabled[r.Line] = true
+					changed = true
+					break
+				}
+			}
+		}
+	}
+}
+
 type genField struct {
 	num, sindex, code, length int
 }
@@ -545,6 +568,47 @@ func TestC19(t *testing.T) {
 			}
 		}
 		wg.Wait()
+
+		// cover: three selections per workbook that together disable every
+		// enabled row at least once (row number mod 3, plus everything that
+		// depends on a disabled row)
+		var cover []selCase
+		for _, v := range versions {
+			b := bks[v]
+			for i := 0; i < 3; i++ {
+				disabled := map[int]bool{}
+				for _, r := range b.rows {
+					if r.Enabled && r.Line%3 == i {
+						disabled[r.Line] = true
+					}
+				}
+				b.closeDown(disabled)
+				c := selCase{Version: v, ViaZip: i == 1}
+				for l := range disabled {
+					c.Disabled = append(c.Disabled, l)
+				}
+				sort.Ints(c.Disabled)
+				cover = append(cover, c)
+			}
+		}
+		sem := make(chan struct{}, 8)
+		for _, c := range cover {
+			wg.Add(1)
+			go func(c selCase) {
+				defer wg.Done()
+				sem <- struct{}{}
+				defer func() { <-sem }()
+				labels := map[string]int{}
+				if msg, ok := checkSelection(c, labels); !ok {
+					rec.Fail("cover", "", fmt.Sprintf("SDK %s, %d rows disabled: %s", c.Version, len(c.Disabled), msg), c)
+				}
+				rec.Eval("cover", 1)
+				rec.NonTrivial(hx.FP(fmt.Sprint(c.Version, c.Disabled)))
+				rec.Class("table-entries-checked", int64(labels["table-entries-checked"]))
+			}(c)
+		}
+		wg.Wait()
+		rec.Exhaustive("cover: every enabled row of every bundled workbook is disabled in at least one of 3 selections per workbook")
 
 		hx.RapidCheck(t, rec, "selections", func(rt *rapid.T, fail func(string, string, any)) {
 			d := gen.D{T: rt}
